@@ -1205,7 +1205,9 @@ pub fn check_c19_acceptance(cx: &Ctx, ix: &Index, sc: &mut SigCache) -> Report {
 // requested digest and was asked for; blocks are stored parent-first.
 pub fn check_c07_always(cx: &Ctx, ix: &Index) -> Report {
     let mut r = Report::default();
-    let mut first_seen: HashMap<Digest, Vec<u8>> = HashMap::new();
+    // Every distinct serialisation seen under a digest outside helper replies (a block's digest binds
+    // neither its TC nor its QC's round, so several variants can legitimately share a digest).
+    let mut first_seen: HashMap<Digest, Vec<Vec<u8>>> = HashMap::new();
     let mut requests: HashMap<(usize, usize), Vec<Digest>> = HashMap::new();
     let mut store_order: HashMap<usize, HashMap<Vec<u8>, usize>> = HashMap::new();
     for (pos, ev) in cx.log.iter().enumerate() {
@@ -1225,18 +1227,25 @@ pub fn check_c07_always(cx: &Ctx, ix: &Index) -> Report {
                     let bytes = bincode::serialize(b).unwrap_or_default();
                     let sender = frame.sender();
                     let is_author = cx.topo.index_of(&b.author) == Some(sender);
+                    let is_reply = !is_author && cx.is_honest(sender);
+                    if !is_reply {
+                        let e = first_seen.entry(d.clone()).or_default();
+                        if !e.contains(&bytes) {
+                            e.push(bytes.clone());
+                        }
+                    }
                     match first_seen.get(&d) {
                         None => {
-                            first_seen.insert(d.clone(), bytes);
+                            first_seen.insert(d.clone(), vec![bytes]);
                         }
                         Some(orig) => {
-                            if !is_author && cx.is_honest(sender) {
+                            if is_reply {
                                 r.count("C07.sync_replies_checked", 1);
-                                if *orig != bytes {
+                                if !orig.contains(&bytes) {
                                     r.violate(
                                         "C07",
                                         "sync-reply-differs-from-original",
-                                        format!("node {} answered with a block whose bytes differ from the first block seen under digest {}", sender, short(&d)),
+                                        format!("node {} answered with a block whose bytes differ from every block proposed under digest {}", sender, short(&d)),
                                         wit(cx, &[pos]),
                                     );
                                 }
